@@ -452,6 +452,34 @@ def run(ctx):
                  'a row taken from the object store (%s) is attached to field %s of another object: the attributes reported for one object then depend on operations on the other' % (sorted(names), field))
     if not shared:
         ctx.ok('C05.R6', ENGINE, 'all %d collection stores attach freshly built rows' % n_add)
+    # ---------------- R8 the conversion chain never filters stored values by truthiness
+    ctx.rule('C05.R8', 'in the conversion chain between stored columns and wire structures (pie factory, secret factory, pie objects, column types) no item of a mapping is kept or dropped by the truthiness of its value: False, 0 and empty byte strings are legitimate stored values (only `is None` / `is not None` may select)')
+    CHAIN = ['kmip/pie/factory.py', 'kmip/core/factories/secrets.py', 'kmip/pie/objects.py', 'kmip/pie/sqltypes.py']
+    n_iter = 0
+    for rel in CHAIN:
+        if not src.exists(rel):
+            continue
+        t8 = src.tree(rel)
+        for comp in [n for n in ast.walk(t8) if isinstance(n, ast.comprehension)] + [n for n in ast.walk(t8) if isinstance(n, ast.For)]:
+            it = comp.iter
+            if not (isinstance(it, ast.Call) and isinstance(it.func, ast.Attribute) and it.func.attr in ('items', 'iteritems') or (isinstance(it, ast.Call) and (call_name(it) or '').endswith('iteritems'))):
+                continue
+            tg = comp.target
+            if not (isinstance(tg, ast.Tuple) and len(tg.elts) == 2 and isinstance(tg.elts[1], ast.Name)):
+                continue
+            n_iter += 1
+            vname = tg.elts[1].id
+            tests = list(comp.ifs) if isinstance(comp, ast.comprehension) else [x.test for st in comp.body for x in ast.walk(st) if isinstance(x, (ast.If, ast.IfExp))]
+            for tst in tests:
+                parts = tst.values if isinstance(tst, ast.BoolOp) else [tst]
+                for pt in parts:
+                    bare = pt.operand if isinstance(pt, ast.UnaryOp) and isinstance(pt.op, ast.Not) else pt
+                    if isinstance(bare, ast.Name) and bare.id == vname:
+                        ctx.fail('C05.R8', '%s|truthiness-filter %s' % (rel, vname), '%s:%s' % (rel, tst.lineno),
+                                 'items of %s are selected by the truthiness of the value %s: a stored False, 0 or empty byte string is dropped on the way (it comes back as absent)' % (U(it)[:60], vname))
+    ctx.count('mapping_iterations_in_conversion_chain', n_iter)
+    if not any(f.rule == 'C05.R8' for f in ctx.findings):
+        ctx.ok('C05.R8', ', '.join(CHAIN), '%d mapping iterations select by None tests or not at all' % n_iter)
     # ---------------- R7 operations that only read leave the loaded instance untouched
     ctx.rule('C05.R7', 'only Activate, Revoke, Destroy and the attribute operations (Set/Modify/DeleteAttribute) modify an object loaded from the store; every other handler (Get, GetAttributes, GetAttributeList, Locate, the cryptographic-use operations, DeriveKey on its base objects, ...) leaves the loaded instance untouched - a dirty instance is written out by the next commit in the same batch')
     WRITERS = {'_process_activate', '_process_revoke', '_process_destroy', '_process_set_attribute', '_process_modify_attribute', '_process_delete_attribute'}
